@@ -245,4 +245,37 @@ Theorem C17_fish_script_untamed_name_refuted :
     skeleton (events fish_step FB s1) <> skeleton (events fish_step FB s2).
 Proof. exact fish_untamed_name_refuted. Qed.
 Print Assumptions C17_fish_script_untamed_name_refuted.
+
+(** the same at the level of the command tree the user wrote: [generate_fish c d bin] is [set_bin_name] +
+    [Command::build] (the tree by [AotTree.build], the texts by [dbuild]) + the generator.  [build] keeps names
+    tame and treats the texts uniformly, so for two trees that differ only in their description texts
+    [generate] succeeds on both or on neither and the two files have the same token skeleton *)
+From ClapModel Require Import Complete.FishBuildProofs.
+Theorem C17_fish_generate_same_skeleton : forall c d1 d2 bin s1,
+  tame bin = true -> tame_cmd c = true -> erase_desc d1 = erase_desc d2 ->
+  generate_fish c d1 bin = Some s1 ->
+  exists s2, generate_fish c d2 bin = Some s2 /\
+    skeleton (events fish_step FB s1) = skeleton (events fish_step FB s2) /\
+    final fish_step FB s1 = final fish_step FB s2.
+Proof. exact generate_fish_text_invariance. Qed.
+Print Assumptions C17_fish_generate_same_skeleton.
+
+Theorem C17_fish_build_uniform_in_texts : forall c d1 d2,
+  erase_desc d1 = erase_desc d2 -> erase_desc (dbuild c d1) = erase_desc (dbuild c d2).
+Proof. exact dbuild_erase_congr. Qed.
+Print Assumptions C17_fish_build_uniform_in_texts.
+
+Theorem C17_fish_build_keeps_names_tame : forall c bin b,
+  build (set_bin_name c bin) = Some b -> tame_cmd c = true -> tame_cmd b = true.
+Proof. exact build_tame. Qed.
+Print Assumptions C17_fish_build_keeps_names_tame.
+
+(** satisfiable: the example tree as a user tree (no bin name; build adds the help flags and the expanded
+    help subcommand tree), adversarial against innocuous texts; both files exist and differ *)
+Theorem C17_fish_generate_nonvacuous :
+  tame [109; 121; 45; 97; 112; 112] = true /\ tame_cmd lx_user = true /\ erase_desc lx_adv = erase_desc lx_inn /\
+  exists s1 s2, generate_fish lx_user lx_adv [109; 121; 45; 97; 112; 112] = Some s1 /\
+                generate_fish lx_user lx_inn [109; 121; 45; 97; 112; 112] = Some s2 /\ s1 <> s2.
+Proof. exact generate_fish_text_invariance_hyps. Qed.
+Print Assumptions C17_fish_generate_nonvacuous.
 (* ---- end fish generator model ---- *)
